@@ -271,14 +271,16 @@ def job_stable_division(E, rep, tier):
     fn = E.module('torchsde._core.misc').globals['stable_division']
 
     def run(cx):
-        a = XT(np.array([[SV(cx.fresh('a'))]], dtype=object))
-        b = XT(np.array([[SV(cx.fresh('b'))]], dtype=object))
+        # two batch rows with independent elements: the post-conditions are element-wise (no element of the result depends on another row)
+        a = XT(np.array([[SV(cx.fresh('a0'))], [SV(cx.fresh('a1'))]], dtype=object))
+        b = XT(np.array([[SV(cx.fresh('b0'))], [SV(cx.fresh('b1'))]], dtype=object))
         r = E.call_function(fn, [a, b], {}, cx, 0, force_body=True)
-        av, bv, rv = to_z3(a.a[0, 0]), to_z3(b.a[0, 0]), to_z3(r.a[0, 0])
         eps = z3.RealVal('1/10000000')
-        absb = z3.If(bv >= 0, bv, -bv)
-        cx.oblige('C18/stable_division/post.inside-guard', z3.Implies(absb > eps, rv == av / bv), 'post')
-        cx.oblige('C18/stable_division/post.clamped', z3.Implies(z3.And(absb <= eps, bv != 0), rv == av / (eps * z3.If(bv > 0, 1, -1))), 'post')
+        for k in (0, 1):
+            av, bv, rv = to_z3(a.a[k, 0]), to_z3(b.a[k, 0]), to_z3(r.a[k, 0])
+            absb = z3.If(bv >= 0, bv, -bv)
+            cx.oblige(f'C18/stable_division/post.inside-guard[row {k}]', z3.Implies(absb > eps, rv == av / bv), 'post')
+            cx.oblige(f'C18/stable_division/post.clamped[row {k}]', z3.Implies(z3.And(absb <= eps, bv != 0), rv == av / (eps * z3.If(bv > 0, 1, -1))), 'post')
         return r
     n0 = len(E.all_obligations)
     E.explore(run, 'stable_division')
